@@ -1,7 +1,8 @@
 import IGVerif.Basic
 /-! `parser.extractComponentType`: identification of the component type from the header of a nested
-    component (`Cac1[anno]`, `Bdir1,p2`, …), as `parseNestedStatements` and
-    `parseNestedStatementCombination` call it. The function has no regular expression: it cuts a
+    component (`Cac1[anno]`, `Bdir1,p2`, …), as `parseNestedStatementCombination` calls it for the
+    header of a combination and for the header of each operand (`parseNestedStatements` has a
+    `HasPrefix` chain of its own for single nested statements, which is tied by D only). The function has no regular expression: it cuts a
     trailing annotation at the first `[`, then walks `tree.IGComponentSymbols` in table order with
     `strings.Contains`, remembers the last symbol contained, appends the property marker when `,p`
     occurs anywhere, and reports two different symbols as `MULTIPLE_COMPONENTS_FOUND`.
